@@ -125,6 +125,9 @@ namespace rkcommon {
         while (*s != '"') {
           if (*s == '\\')
             ++s;
+          if (*s == 0)
+            throw std::runtime_error(
+                "error reading XML file: unterminated string");
           ++s;
         }
         char *end = s;
@@ -136,6 +139,9 @@ namespace rkcommon {
         while (*s != '\'') {
           if (*s == '\\')
             ++s;
+          if (*s == 0)
+            throw std::runtime_error(
+                "error reading XML file: unterminated string");
           ++s;
         }
         char *end = s;
